@@ -269,6 +269,44 @@ class Gen(object):
                 n['children'].append({'inst': 'node', 'ref': rng.choice(libnodes)})
         return n
 
+    def attach(self, spec, ref):
+        """hang an instance of node `ref` somewhere in the subtree of the top-level node `spec`"""
+        rng = self.rng
+        holders = []
+
+        def walk(n):
+            if 'inst' not in n:
+                holders.append(n)
+                for c in n['children']:
+                    walk(c)
+        walk(spec)
+        h = rng.choice(holders) if rng.random() < 0.5 else spec
+        h['children'].insert(rng.randint(0, len(h['children'])), {'inst': 'node', 'ref': ref})
+
+    def wire(self, group):
+        """instance_node edges inside one id scope.  An edge a -> b needs rank[a] > rank[b], so the
+        graph is acyclic; ranks are independent of document order, hence forward references."""
+        rng = self.rng
+        n = len(group)
+        if n < 2:
+            return
+        mode = rng.choice(['none', 'forward-chain', 'backward-chain', 'random-chain', 'random', 'random'])
+        if mode == 'none':
+            return
+        order = list(range(n))              # order[0] is the leaf, every later one may use earlier ones
+        if mode == 'forward-chain':
+            order.reverse()                 # first node instantiates the second, which instantiates the third ...
+        elif mode != 'backward-chain':
+            rng.shuffle(order)
+        if mode.endswith('chain'):
+            for a, b in zip(order[1:], order[:-1]):
+                self.attach(group[a], group[b]['id'])
+        else:
+            for i in range(n):
+                for j in range(i):
+                    if rng.random() < 0.4:
+                        self.attach(group[order[i]], group[order[j]]['id'])
+
     def program(self):
         rng = self.rng
         prog = {'images': [], 'effects': [], 'materials': [], 'geometries': [], 'lights': [], 'cameras': [],
@@ -301,14 +339,17 @@ class Gen(object):
             prog['lights'].append(self.light())
         for _ in range(rng.choice([0, 0, 1, 2, 3])):
             prog['cameras'].append(self.camera())
-        libnodes = []
-        for _ in range(rng.choice([0, 0, 1, 2, 3])):
-            n = self.node(1, prog, list(libnodes), None)
-            prog['nodes'].append(n)
-            libnodes.append(n['id'])
-        for _ in range(rng.choice([0, 1, 1, 1, 2])):
+        for _ in range(rng.choice([0, 0, 1, 2, 3, 4])):
+            prog['nodes'].append(self.node(1, prog, [], None))
+        libnodes = [n['id'] for n in prog['nodes']]
+        for _ in range(rng.choice([0, 1, 1, 1, 2, 3])):
             prog['scenes'].append({'id': self.ident('scene'),
-                                   'nodes': [self.node(0, prog, libnodes, None) for _ in range(rng.choice([0, 1, 2, 3]))]})
+                                   'nodes': [self.node(0, prog, libnodes, None) for _ in range(rng.choice([0, 1, 2, 3, 4]))]})
+        # node instancing among top-level nodes, in every direction: library -> library and, per
+        # scene, scene node -> sibling top-level scene node; chains, forward and backward
+        self.wire(prog['nodes'])
+        for s in prog['scenes']:
+            self.wire(s['nodes'])
         if prog['scenes'] and rng.random() < 0.8:
             prog['scene'] = rng.randrange(len(prog['scenes']))
         return prog
@@ -346,9 +387,27 @@ def features(prog):
     for c in prog['cameras']:
         f.add('camera:' + c['kind'] + ':' + '+'.join(sorted(c['params'])))
 
-    def walk(n, d):
+    docpos = {}
+    for grp in [prog['nodes']] + [sc['nodes'] for sc in prog['scenes']]:
+        for i, t in enumerate(grp):
+            docpos[t['id']] = (id(grp), i)
+    libids = {t['id'] for t in prog['nodes']}
+    edges = {}
+
+    def walk(n, d, top=None):
         if 'inst' in n:
             f.add('inst:' + n['inst'])
+            if n['inst'] == 'node' and top is not None:
+                tgt = n['ref']
+                if top['id'] in libids:
+                    f.add('instance_node:lib->lib:' + ('forward' if docpos[tgt][1] > docpos[top['id']][1] else 'backward'))
+                elif tgt in libids:
+                    f.add('instance_node:scene->lib')
+                else:
+                    f.add('instance_node:scene->scene:' + ('forward' if docpos[tgt][1] > docpos[top['id']][1] else 'backward'))
+                edges.setdefault(top['id'], set()).add(tgt)
+                if d > 1:
+                    f.add('instance_node:nested-holder')
             if n.get('materials'):
                 f.add('bind_material')
             return
@@ -356,13 +415,21 @@ def features(prog):
         for t in n.get('transforms', []):
             f.add('transform:' + t['kind'])
         for c in n.get('children', []):
-            walk(c, d + 1)
+            walk(c, d + 1, top if top is not None else n)
     for n in prog['nodes']:
         f.add('library_nodes')
         walk(n, 0)
     for s in prog['scenes']:
         for n in s['nodes']:
             walk(n, 0)
+    if len(prog['scenes']) > 1:
+        f.add('several-scenes')
+    # chains of length >= 2: a -> b -> c
+    for a, bs in edges.items():
+        for b in bs:
+            for c in edges.get(b, ()):
+                fw = docpos[b][1] > docpos[a][1] and docpos.get(c, (0, -1))[0] == docpos[b][0] and docpos[c][1] > docpos[b][1]
+                f.add('instance_node:chain2' + (':forward' if fw else ''))
     if prog.get('asset'):
         f.add('asset')
         if prog['asset']['contributors']:
